@@ -146,6 +146,17 @@ def run(ctx):
                         "final_rank_ids": [x for x in a["final"] if x[0].split("_")[0] in decl][:6]})
         if problems:
             ctx.violation(dict(kind="rank-ids", yaml=r["yaml"], yaml_text=specs.dump_yaml(r["yaml"]), hashseed=r["hashseed"], text=r["text"], reason="; ".join(problems)), True)
+    # (b') inputs are never modified, for EVERY execution: the origin of every fiber / payload reference is followed through the real
+    # tree (C07.tchk_sound); an in-place update (`+=`, `<<=`, left operand of `<<`) of a value rooted in a user input, or of unknown
+    # origin, is refused
+    for r, a in zip(metas, common.lean_batch([{"op": "taint_check", "tree": r["tree"], "inputs": input_vars(r)} for r in metas])):
+        if "error" in a:
+            raise common.InternalError("lean: " + a["error"])
+        ctx.ob(a["ok"]); ctx.stat("in_place_updates_checked", a.get("mutations", 0))
+        if not a["ok"]:
+            bad = [ex for ex in r.get("execs", []) if ex.get("ok") and ex.get("inputs_modified")]
+            ctx.violation(dict(kind="input-origin", yaml=r["yaml"], yaml_text=specs.dump_yaml(r["yaml"]), hashseed=r["hashseed"], text=r["text"], reason=a["why"],
+                               obligation="Taint.chk (C07.tchk_sound) accepts the tree of the real compiler"), "user supplied" in a["why"])
     # (c) execution: inputs unmodified, names, original coordinates
     c02.check_records(ctx, [r for r in recs if r["ok"] and r["execs"]], need_reference=False)
 
